@@ -1,6 +1,7 @@
 (* C10 — concurrent use is deadlock-free (and every call returns) as far as the locking discipline goes. *)
 From Coq Require Import List Arith Bool.
 From Syz Require Import LockTable Conc ConcProofs ConcSafety.
+From Syz Require ConcLin.
 Import ListNotations.
 
 (* the lock table regenerated from the Go sources on this very run satisfies the discipline: on every
@@ -52,3 +53,40 @@ Example C10_nested_rlock_deadlocks :
   let s := run_sched (start [reader; writer]) [0; 1] in
   done s = false /\ step s 0 = None /\ step s 1 = None.
 Proof. vm_compute. repeat split. Qed.
+
+(* ---------- linearizability (the data half) ----------
+   Calls that run under one readers-writer lock: a call takes the lock (exclusively if it is a mutator), runs its body
+   one micro-step at a time (reads of the shared state into its own state; writes of the shared state only in
+   mutators) and releases the lock.  The lock of this model admits a reader whenever no writer is inside, which is
+   every behaviour of sync.RWMutex and more (Go also holds new readers back behind a waiting writer), so the theorem
+   covers every schedule of the runtime.  For every interleaving, at every quiescent point: the shared state and every
+   call's result are those of running the calls one after the other, each atomically, in the order in which they took
+   the lock; and that order respects real time. *)
+Theorem C10_linearizable : forall (S L : Type) (s0 : ConcLin.st S L),
+  (forall i, ConcLin.ph S L (ConcLin.thr S L s0 i) = ConcLin.Idle S L
+             /\ ConcLin.loc S L (ConcLin.thr S L s0 i) = ConcLin.l0 S L (ConcLin.cl S L (ConcLin.thr S L s0 i))) ->
+  ConcLin.ord S L s0 = nil ->
+  (forall i, ConcLin.call_ok S L (ConcLin.cl S L (ConcLin.thr S L s0 i))) ->
+  forall s, ConcLin.reach S L s0 s -> ConcLin.quiescent S L s ->
+  ConcLin.sh S L s = ConcLin.serial_sh S L (ConcLin.calls S L s0) (ConcLin.ord S L s) (ConcLin.sh S L s0)
+  /\ forall i, List.In i (ConcLin.ord S L s) ->
+       ConcLin.serial_res S L (ConcLin.calls S L s0) (ConcLin.ord S L s) (ConcLin.sh S L s0) i
+       = Some (ConcLin.loc S L (ConcLin.thr S L s i)).
+Proof. intros S L s0 H1 H2 H3 s. exact (ConcLin.linearizable S L s0 H1 H2 H3 s). Qed.
+Print Assumptions C10_linearizable.
+
+Theorem C10_real_time_order : forall (S L : Type) (s0 : ConcLin.st S L),
+  (forall i, ConcLin.ph S L (ConcLin.thr S L s0 i) = ConcLin.Idle S L
+             /\ ConcLin.loc S L (ConcLin.thr S L s0 i) = ConcLin.l0 S L (ConcLin.cl S L (ConcLin.thr S L s0 i))) ->
+  ConcLin.ord S L s0 = nil ->
+  (forall i, ConcLin.call_ok S L (ConcLin.cl S L (ConcLin.thr S L s0 i))) ->
+  forall s s' a b, ConcLin.reach S L s0 s -> ConcLin.reach S L s s' ->
+  ConcLin.ph S L (ConcLin.thr S L s a) = ConcLin.Done S L -> ConcLin.ph S L (ConcLin.thr S L s b) = ConcLin.Idle S L ->
+  List.In b (ConcLin.ord S L s') ->
+  exists l1 l2 l3, ConcLin.ord S L s' = (l1 ++ a :: l2 ++ b :: l3)%list.
+Proof. intros S L s0 H1 H2 H3 s s' a b. exact (ConcLin.real_time_order S L s0 H1 H2 H3 s s' a b). Qed.
+Print Assumptions C10_real_time_order.
+
+(* the premises are met by a concrete system (a counter, an incrementing writer and a reader) with a concrete run *)
+Example C10_linearizable_nonvacuous : exists s, ConcLin.reach nat nat ConcLin.ex_s0 s /\ ConcLin.quiescent nat nat s.
+Proof. destruct ConcLin.ex_run as (s & Hr & _ & _ & _ & Hq). exists s. split; assumption. Qed.
